@@ -17,6 +17,9 @@ def compose(rng, i, with_gene):
     org = rng.choice(ORGS)
     ox = str(rng.choice([9606, 10090, 559292]))
     gene = f"GENE{i // rng.choice([1, 2])}" if with_gene else None
+    if gene and rng.random() < 0.4:
+        # real gene symbols are not always word characters: HLA-A, MT-CO1, T05G5.10, ORF1ab, C4orf3/x, "TRA@"
+        gene = rng.choice(["HLA-", "MT-CO", "T05G5.", "orf1a/b_", "TRA@", "Dmel_CG", "nad4L:", "H2-K"]) + str(i // rng.choice([1, 2]))
     pe = str(rng.randint(1, 5))
     sv = str(rng.randint(1, 3))
     h = f"{db}|{acc}|{entry} {desc} OS={org} OX={ox}" + (f" GN={gene}" if gene else "") + f" PE={pe} SV={sv}"
